@@ -220,6 +220,43 @@ def rfcomm_pn_validation():
             src.count('self.acceptable_frame_size(pn.max_frame_size)')]
 
 
+def transport_reject_shape():
+    """transport/common.py: PacketParser.feed_data resets before it raises for an unknown packet
+    type; StreamPacketSource.data_received and the pump of PumpedPacketSource catch the
+    InvalidPacketError and go on with the next chunk."""
+    from bumble.transport import common
+    f = fn_ast(common.PacketParser.feed_data)
+    blk = find(f, ast.If, lambda n: u(n.test) == 'self.packet_info is None', 'if self.packet_info is None')
+    body = blk.body
+    first_is_reset = int(len(body) >= 1 and u(body[0]) == 'self.reset()')
+    raises = int(len(body) >= 2 and isinstance(body[-1], ast.Raise) and 'InvalidPacketError' in u(body[-1]))
+    w = find(f, ast.While, what='while loop in feed_data')
+    must(u(w.test) == 'data_left and self.bytes_needed', 'feed_data loop condition')
+
+    def catches(fn, what):
+        tries = [t for t in ast.walk(fn_ast(fn)) if isinstance(t, ast.Try)
+                 and any('self.parser.feed_data(' in u(x) for x in t.body)]
+        for t in tries:
+            for h in t.handlers:
+                if h.type is not None and u(h.type) == 'core.InvalidPacketError':
+                    ends = any(isinstance(n, (ast.Break, ast.Raise, ast.Return)) for b in h.body for n in ast.walk(b))
+                    return int(not ends)
+        return 0
+    return [first_is_reset, raises, len(body), catches(common.StreamPacketSource.data_received, 'stream'),
+            catches(common.PumpedPacketSource.start, 'pump')]
+
+
+def transport_packet_info():
+    from bumble.transport import common
+    width = {'B': 1, 'H': 2}
+    rows = []
+    for ty in sorted(common.HCI_PACKET_INFO):
+        ls, lo, fmt = common.HCI_PACKET_INFO[ty]
+        must(fmt in width, f'HCI_PACKET_INFO[{ty}] unpack format {fmt!r}')
+        rows.append(f'({int(ty)}, Framer.mkInfo {int(ls)} {int(lo)} {width[fmt]})')
+    return '[' + '; '.join(rows) + ']'
+
+
 def att_item_loops():
     """att: the __post_init__ loops of the four response classes -> (op, guard, header, stride)
     with 0 standing for 'the length byte of the PDU' and -n for 'n + uuid_size'."""
@@ -290,6 +327,9 @@ def render():
            '  (* loop guard operator on self.credits (3 is >), its bound, credit decrements per PDU, continues after each PDU *)',
            f'Definition rfcomm_pn_validation : list Z := {zl(rfcomm_pn_validation())}.',
            '  (* minimum / maximum frame size, the check bounds the effective frame size, number of call sites in on_mcc_pn *)',
+           f'Definition transport_reject_shape : list Z := {zl(transport_reject_shape())}.',
+           '  (* feed_data unknown-type block: first statement is self.reset(), last raises InvalidPacketError, statements; StreamPacketSource / pump catch it and continue *)',
+           f'Definition tp_packet_info : Framer.table := {transport_packet_info()}.',
            f'Definition credit_based_validation : list Z := {zl(credit_based_validation())}.',
            '  (* minimum MTU, minimum MPS, validated in: LE request, enhanced request, LE response, enhanced response *)',
            'Definition att_item_loop_shapes : list (Z * Z * Z * Z) := [' + '; '.join(f'({a}, {b}, {c}, {d if d >= 0 else f"({d})"})' for a, b, c, d in att_item_loops()) + '].',
